@@ -82,7 +82,8 @@ class World:
                        "dimension_mismatch_refused", "post_fault_ops_executed", "reenter_after_exit",
                        "object_is_context_operator_twice", "poke_inside_context", "secularize_inside_context",
                        "deepcopy_inside_context", "convert_inside_context", "eso_at_inside_context", "context_operator_not_looked_at", "propagation_inside_context", "time_dependent_tensor_in_pool", "evolution_at_inside_context",
-                       "refused_construction_inside_context", "api_sweep_call"]
+                       "refused_construction_inside_context", "api_sweep_call",
+                       "context_object_reentered_while_active", "context_object_entered_again_after_exit"]
     required_faults = ["F1_simfault", "F2_refused_write", "F3_dimension_mismatch"]
     components = {
         "real": ["Manager basis stack / registration / flags", "eigenbasis_of.__enter__/__exit__", "BasisManaged",
@@ -138,12 +139,22 @@ class World:
             pre.append({"op": "create", "cls": "SelfAdjoint", "pay": rng.randrange(1 << 30), "shape": "generic", "odd": True})
         n = rng.randint(3, 40)
         ops = list(pre)
+        # swarm member: context-manager objects built ahead of their use, entered several times and re-entered
+        ctxobjs = rng.random() < 0.3
+        if ctxobjs:
+            opkinds = opkinds + ["mkctx", "enter"]
+            ops.append({"op": "mkctx", "k": rng.randrange(16)})
         for _ in range(n):
             k = rng.choice(opkinds)
             if k == "create":
                 ops.append(self._gen_create(rng, classes))
             elif k == "enter":
-                ops.append({"op": "enter", "k": rng.randrange(16), "look": rng.random() < 0.6})
+                e = {"op": "enter", "k": rng.randrange(16), "look": rng.random() < 0.6}
+                if ctxobjs and rng.random() < 0.6:
+                    e["use"] = rng.randrange(8)
+                ops.append(e)
+            elif k == "mkctx":
+                ops.append({"op": "mkctx", "k": rng.randrange(16)})
             elif k == "exit":
                 ops.append({"op": "exit"})
             elif k == "fault":
@@ -242,6 +253,9 @@ class Runner:
         self.accessed_inside = 0
         self.entered = 0
         self.exits_done = 0
+        self.ctxobjs = []
+        self.cm_used = set()
+        self.cm_next = None
         self.ta = qr.TimeAxis(0.0, 3, 1.0)
 
         @prevent_basis_context
@@ -613,7 +627,14 @@ class Runner:
 
     def do_enter(self, ops, i):
         op = ops[i]
-        k = self.pick(op["k"], self.eligible_context_operator)
+        cm = None
+        if "use" in op and self.ctxobjs:
+            # a context-manager object built earlier (possibly in another basis, possibly active right now)
+            cmk, cm = self.ctxobjs[op["use"] % len(self.ctxobjs)]
+            oo = self.pool[cmk]
+            k = cmk if (oo.alive and not self.blocked(oo) and self.eligible_context_operator(oo)) else None
+        else:
+            k = self.pick(op["k"], self.eligible_context_operator)
         if k is None or self.depth >= 4:
             self.ctx.ev(i, "enter", "noop")
             return i + 1
@@ -634,8 +655,17 @@ class Runner:
         if any(l["opk"] == k for l in self.levels) or getattr(o, "name", None) == "ctx-before":
             self.ctx.probe("object_is_context_operator_twice")
         o.name = "ctx-before"
+        if cm is None:
+            cm = eb(o.real)
+        else:
+            if any(l.get("cm") is cm for l in self.levels):
+                self.ctx.probe("context_object_reentered_while_active")
+            elif id(cm) in self.cm_used:
+                self.ctx.probe("context_object_entered_again_after_exit")
+            self.cm_used.add(id(cm))
+        self.cm_next = cm
         try:
-            with eb(o.real):
+            with cm:
                 entered = True
                 self.push_level(k, o, H_here, pre, i)
                 nxt = self.interp(ops, i + 1)
@@ -687,7 +717,7 @@ class Runner:
             self.ctx.probe("diagonal_context")
         Tp, Tpi = self.TTi(self.depth, o.dim) if all(l["dim"] == o.dim for l in self.levels) else (numpy.eye(o.dim), numpy.eye(o.dim))
         T = Tp @ S
-        self.levels.append({"S": S, "T": T, "Ti": numpy.linalg.inv(T), "dim": o.dim, "opk": k, "pre": pre,
+        self.levels.append({"S": S, "T": T, "Ti": numpy.linalg.inv(T), "dim": o.dim, "opk": k, "pre": pre, "cm": self.cm_next,
                             "complexS": bool(numpy.max(numpy.abs(S.imag)) > 1e-14), "typedComplexS": S_typed_complex})
         if self.levels[-1]["complexS"] and not self.cplx:
             self.ctx.probe("complex_eigenvectors_of_real_valued_operator")
@@ -739,6 +769,23 @@ class Runner:
             self.ctx.ev(i, "noop", kind)
             return
         h(i, op)
+
+    def op_mkctx(self, i, op):
+        """Builds a context-manager object without entering it (the library does so itself in PureDephasing.eigenbasis);
+        building one is not entering one: nothing of the bookkeeping may move."""
+        k = self.pick(op["k"], lambda o: o.cls in CONTEXT_CLASSES)
+        if k is None or len(self.ctxobjs) >= 4:
+            self.ctx.ev(i, "mkctx", "noop")
+            return
+        pre = self.bookkeeping()
+        try:
+            cm = self.qr.eigenbasis_of(self.pool[k].real)
+        except Exception as e:
+            raise Violation("context-construction-raises", "%s: %s" % (type(e).__name__, e))
+        self.ctxobjs.append((k, cm))
+        self.ctx.ev(i, "mkctx", k, self.depth)
+        self.check_bookkeeping(pre, "after building (not entering) a context-manager object at op %d" % i)
+        self.check_current_operator("after building (not entering) a context-manager object at op %d" % i)
 
     def op_create(self, i, op):
         dim = self.N if not op.get("odd") else (self.N + 1 if self.N < 4 else 2)
